@@ -1,87 +1,121 @@
 package signaling_rpc_server
 
 import (
+	"github.com/aperturerobotics/bifrost/crypto"
+	"github.com/aperturerobotics/bifrost/hash"
+	"github.com/aperturerobotics/bifrost/peer"
 	signaling "github.com/aperturerobotics/bifrost/signaling/rpc"
 	rt "github.com/aperturerobotics/bifrost/zz_verifrt"
 )
 
-// VerifC20Forward: A and B hold a session; A (and an impostor C) submit requests. Every message
-// the relay writes to B was verified, was signed by the peer that submitted it (A), was submitted
-// under the current epoch, and goes to A's partner only. Bad submissions end the submitter's call.
+// c20Packet is a submission whose every field is chosen independently: claimed sender among the
+// identities a client could name (or junk), free body / signature bytes / hash type, optionally an
+// attached public key. The closed world of signatures that exist: A's and C's session messages over
+// the payload, and A's signature over the payload for another purpose.
+func c20Packet(A, B, C *svPeer, payload []byte) (m *signaling.SessionMsg, same bool, honestA *peer.SignedMsg) {
+	ma, err := signaling.NewSessionMsg(A.priv, hash.HashType_HashType_BLAKE3, payload, 1)
+	rt.Assert("A's message", err == nil)
+	_, err = signaling.NewSessionMsg(C.priv, hash.HashType_HashType_BLAKE3, payload, 1)
+	rt.Assert("C's message", err == nil)
+	_, err = peer.NewSignedMsg("some other protocol", A.priv, hash.HashType_HashType_BLAKE3, payload)
+	rt.Assert("A's other-purpose message", err == nil)
+	honestA = ma.SignedMsg
+	pkt := &peer.SignedMsg{Signature: &peer.Signature{}}
+	switch rt.Choose("from", 4) {
+	case 0:
+		pkt.FromPeerId = A.txt
+	case 1:
+		pkt.FromPeerId = C.txt
+	case 2:
+		pkt.FromPeerId = B.txt
+	case 3:
+		pkt.FromPeerId = rt.String("fromtxt", 0, 2)
+	}
+	pkt.Data = rt.Bytes("data", 0, 1)
+	pkt.Signature.SigData = rt.Bytes("sig", 64, 64)
+	pkt.Signature.HashType = hash.HashType(rt.U32("ht"))
+	switch rt.Choose("pubkey", 3) {
+	case 1:
+		pkt.Signature.PubKey, _ = crypto.MarshalPublicKey(C.priv.GetPublic())
+	case 2:
+		pkt.Signature.PubKey, _ = crypto.MarshalPublicKey(A.priv.GetPublic())
+	}
+	same = rt.And(rt.And(rt.BytesEq(pkt.Data, honestA.Data), rt.BytesEq(pkt.Signature.SigData, honestA.Signature.SigData)),
+		rt.And(pkt.FromPeerId == honestA.FromPeerId, pkt.Signature.HashType == honestA.Signature.HashType))
+	return &signaling.SessionMsg{SignedMsg: pkt, Seqno: rt.U64("msgSeqno")}, same, honestA
+}
+
+// VerifC20Forward: A and B hold a session, C holds an unrelated session towards B. A's stream submits an
+// arbitrary packet under an arbitrary epoch. Whatever the relay writes to B is the message A really
+// signed for this session, submitted under the current epoch; nothing goes to anybody else; a forged,
+// altered or re-attributed submission ends the submitter's call with an error.
 func VerifC20Forward() {
+	rt.SchedBound(0, false)
 	w := svNewWorld()
 	A, B, C := svNewPeer(1), svNewPeer(60), svNewPeer(120)
 	sa := w.open("A", A, B)
 	sb := w.open("B", B, A)
-	sc := w.open("C", C, B) // an unrelated session C->B; B has no session towards C
+	sc := w.open("C", C, B)
 	rt.Quiesce()
-	epoch, _, _ := sa.lastAnnounced()
-	// one submission on A's stream, chosen arbitrarily
-	kind := rt.Choose("submission", 5)
-	var sub *signaling.SessionMsg
-	switch kind {
-	case 0: // honest
-		sub = svMsg(A, 7, 1)
-	case 1: // signed by C, submitted by A: sender mismatch
-		sub = svMsg(C, 7, 1)
-	case 2: // A's message with the body altered after signing
-		sub = svMsg(A, 7, 1)
-		sub.SignedMsg.Data = []byte{8}
-	case 3: // A's message with the signature altered
-		sub = svMsg(A, 7, 1)
-		sub.SignedMsg.Signature.SigData[0] ^= 1
-	case 4: // claims to be from B (partner) but signed by A
-		sub = svMsg(A, 7, 1)
-		sub.SignedMsg.FromPeerId = B.txt
-	}
-	rt.KnownFinding("C01-verify-error-dropped", kind == 2 || kind == 3)
-	ep := epoch
-	switch rt.Choose("epoch", 3) {
-	case 1:
-		ep = epoch - 1
-	case 2:
-		ep = epoch + 1
-	}
+	epoch, isOpen, _ := sa.lastAnnounced()
+	rt.Assert("A was told the session is open", isOpen && epoch > 0)
+	sub, same, honestA := c20Packet(A, B, C, rt.Bytes("payload", 1, 1))
+	ep := rt.U64("epoch")
 	sa.reqCh <- &signaling.SessionRequest{SessionSeqno: ep, Body: &signaling.SessionRequest_SendMsg{SendMsg: sub}}
 	rt.Quiesce()
 	gotB := sb.received()
-	rt.Assert("nothing is delivered to the unrelated session", len(sc.received()) == 0 && len(sa.received()) == 0)
+	rt.Assert("nothing is delivered to the submitter or to the unrelated session", len(sc.received()) == 0 && len(sa.received()) == 0)
 	if len(gotB) > 0 {
 		rt.Reach("forwarded")
 		rt.Assert("forwarded exactly once", len(gotB) == 1)
-		rt.Assert("only an authentic message from the submitting peer under the current epoch is forwarded", kind == 0 && ep == epoch)
-		_, pid, err := gotB[0].ExtractAndVerify()
-		rt.Assert("the forwarded message verifies and names the submitter", err == nil && pid == A.id)
+		rt.Assert("only the authentic message of the submitting peer is forwarded", same)
+		rt.Assert("only a submission under the current epoch is forwarded", ep == epoch)
+		f := gotB[0].GetSignedMsg()
+		rt.Assert("what is forwarded is what was signed", rt.BytesEq(f.GetData(), honestA.Data) && f.GetFromPeerId() == A.txt && rt.BytesEq(f.GetSignature().GetSigData(), honestA.Signature.SigData))
+		rt.Assert("the message number is passed on unchanged", gotB[0].GetSeqno() == sub.GetSeqno())
 	} else {
 		rt.Reach("not forwarded")
-		rt.Assert("an authentic current-epoch message is forwarded", !(kind == 0 && ep == epoch))
+		rt.Assert("an authentic current-epoch message is forwarded", !(rt.And(same, ep == epoch)))
 	}
-	if kind != 0 {
-		rt.Assert("a forged or mis-attributed submission ends the submitter's call with an error", sa.done && sa.err != nil)
+	if rt.Not(same) {
+		rt.Reach("forged")
+		rt.Assert("a forged, altered or mis-attributed submission ends the submitter's call with an error", sa.done && sa.err != nil)
 	}
-	if ep == epoch+1 {
+	if ep > epoch {
 		rt.Assert("a future epoch is an error for the submitter", sa.done && sa.err != nil)
 	}
 	rt.Reach("end")
 }
 
-// VerifC20Init: the first request must be an init naming another, non-empty peer.
+// VerifC20Init: the first request must be an init (epoch field zero) naming another, non-empty, well-formed peer.
 func VerifC20Init() {
+	rt.SchedBound(0, false)
 	w := svNewWorld()
 	A, B := svNewPeer(1), svNewPeer(60)
 	s := w.open("A", A, nil)
-	switch rt.Choose("first", 4) {
+	good := false
+	switch rt.Choose("first", 5) {
 	case 0:
-		s.reqCh <- &signaling.SessionRequest{Body: &signaling.SessionRequest_AckMsg{AckMsg: 1}}
+		s.reqCh <- &signaling.SessionRequest{Body: &signaling.SessionRequest_AckMsg{AckMsg: rt.U64("ack")}}
 	case 1:
-		s.reqCh <- &signaling.SessionRequest{Body: &signaling.SessionRequest_Init{Init: &signaling.SessionInit{PeerId: ""}}}
+		s.reqCh <- &signaling.SessionRequest{Body: &signaling.SessionRequest_Init{Init: &signaling.SessionInit{PeerId: rt.String("junkpeer", 0, 2)}}}
 	case 2:
 		s.reqCh <- &signaling.SessionRequest{Body: &signaling.SessionRequest_Init{Init: &signaling.SessionInit{PeerId: A.txt}}}
 	case 3:
-		s.reqCh <- &signaling.SessionRequest{SessionSeqno: 1, Body: &signaling.SessionRequest_Init{Init: &signaling.SessionInit{PeerId: B.txt}}}
+		n := rt.U64("initEpoch")
+		good = n == 0
+		s.reqCh <- &signaling.SessionRequest{SessionSeqno: n, Body: &signaling.SessionRequest_Init{Init: &signaling.SessionInit{PeerId: B.txt}}}
+	case 4:
+		s.reqCh <- &signaling.SessionRequest{Body: &signaling.SessionRequest_SendMsg{SendMsg: svMsg(A, 1, 1)}}
 	}
 	rt.Quiesce()
-	rt.Assert("a bad first request ends the call with an error", s.done && s.err != nil)
-	rt.Assert("no relay state is left behind", len(w.srv.sessions) == 0 && len(w.srv.peers) == 0)
+	if good {
+		rt.Reach("accepted")
+		rt.Assert("a proper init keeps the call running", !s.done)
+	} else {
+		rt.Reach("rejected")
+		rt.Assert("a bad first request ends the call with an error", s.done && s.err != nil)
+		rt.Assert("no relay state is left behind", len(w.srv.sessions) == 0 && len(w.srv.peers) == 0)
+	}
 	rt.Reach("end")
 }
